@@ -985,6 +985,14 @@ class IMAPClientCommand:
 
         # Reference mailbox name
         #
+        # NOTE: The reference is a prefix for the pattern(s), not a mailbox
+        #       name. Besides the normalized `mailbox_name` we keep it exactly
+        #       as given in `list_reference`: `"a/"` must stay `a/` (`a/%`
+        #       lists what is below `a`, `a%` would list `a`, `ab`, ..)
+        #
+        reference_input = self.input
+        self.list_reference: str = self._p_astring()
+        self.input = reference_input
         self.mailbox_name = self._p_mailbox()
         self._p_simple_string(" ")
 
